@@ -5,6 +5,7 @@ go 1.24.1
 require (
 	github.com/tdewolff/canvas v0.0.0
 	github.com/tdewolff/font v0.0.0-20250314092958-e0eef3f68b08
+	golang.org/x/image v0.26.0
 )
 
 require (
@@ -23,7 +24,6 @@ require (
 	github.com/srwiley/scanx v0.0.0-20190309010443-e94503791388 // indirect
 	github.com/tdewolff/minify/v2 v2.23.0 // indirect
 	github.com/tdewolff/parse/v2 v2.7.22 // indirect
-	golang.org/x/image v0.26.0 // indirect
 	golang.org/x/net v0.38.0 // indirect
 	golang.org/x/text v0.24.0 // indirect
 	modernc.org/knuth v0.5.4 // indirect
